@@ -24,6 +24,9 @@ def dispatch (op : String) : Option (List String → List String → Option (Str
   | "verdict" => some verdict
   | "dist" => some dist
   | "run" => some runOp
+  | "raterun.stop" => some raterunOp
+  | "raterun.switch" => some raterunOp
+  | "raterun.count" => some raterunOp
   | "plan" => some plan
   | "calc.constant" => some (calcOp "constant")
   | "calc.ramp" => some (calcOp "ramp")
